@@ -1,6 +1,6 @@
 SPECIFICATION TSpec
 CONSTANTS
-  Kinds = {"insert", "insert_cols", "ctas", "update"}
+  Kinds = {"insert", "insert_cols", "ctas", "update", "merge"}
   Schemas = {"none", "s"}
   Bare = {"a", "b"}
   TAliases = {"x", "b", "y", "u", "v", "a"}
